@@ -242,10 +242,12 @@ def __init__(self, num_antennas, sample_rate=3*u.GHz, fch1=0*u.GHz, ascending=Tr
 META = {
     'technique': 'static analysis: nullness dataflow with the contradiction trigger (NONEDEF), symbolic slice arithmetic and '
                  'trace comparison against a reference definition (FORMULA/AGREE), guard dominance (GUARDDOM)',
-    'level': 'Decides from the source that omitted delays are normalised to integer zeros and never dereferenced raw, that the first '
-             'request over-reads the background by max_delay, that antenna i\'s slice starts max_delay - delay_i in and has exactly '
-             'num_samples samples, that the cache is the last delay_i background samples and later requests prepend it, that both '
-             'polarisations are treated alike, that too-short requests are rejected first and that set_time clears every cache. '
-             'Equality with a same-seed reference stream is not decided.',
+    'level': 'Decides from the source that omitted delays are normalised to integer zeros and never dereferenced raw, that the'
+             " first request over-reads the background by max_delay, that antenna i's slice starts max_delay - delay_i in and "
+             'has exactly num_samples samples, that the cache is the last delay_i background samples and later requests '
+             'prepend it, that both polarisations are treated alike, that too-short requests are rejected first, that set_time'
+             " clears every cache with a list of the antenna's own, and that reset_start / add_time have exactly the effects "
+             'of set_time(t_start [+ t]) (shared background rewound). Equality with a same-seed reference stream is not '
+             'decided.',
     'note': 'Real/integer arithmetic on symbolic slice bounds; numpy concatenate/slicing semantics from their signatures.',
 }
